@@ -2,7 +2,7 @@
    This file only states the property theorems; proofs live in TSS.Net.FrameFacts and TSS.Net.Queue.
    Models: Net/Frame.v (remoteParty.send / readMsg), Net/Queue.v (Send -> bounded queue -> single writer per destination).
    Not modelled (exercised by the harness only): sockets, TLS, the Go scheduler, real time. *)
-Require Import TSS.Base.Base TSS.Gen.NetConsts TSS.Net.Frame TSS.Net.FrameFacts TSS.Net.Queue.
+Require Import TSS.Base.Base TSS.Gen.NetConsts TSS.Net.Frame TSS.Net.FrameFacts TSS.Net.Queue TSS.Net.Pinned.
 
 (* Framing: every sequence (of any length) of legal frames -- any type byte, topic present exactly for the types of the
    topic table, payload of 0 .. limit bytes -- written back to back on one connection is read back as exactly that
@@ -18,6 +18,10 @@ Theorem C17_topic_table :
   forall ty, has_topic ty = true <-> ty = msg_type_discovery \/ ty = msg_type_mpc.
 Proof. exact topic_table_pinned. Qed.
 Print Assumptions C17_topic_table.
+
+Theorem C17_msg_types : msg_type_none = 0 /\ msg_type_discovery = 1 /\ msg_type_mpc = 2.
+Proof. exact msg_types_pinned. Qed.
+Print Assumptions C17_msg_types.
 
 (* A frame announcing more than the limit is refused: nothing of it, and nothing after it, is delivered --
    for every type byte and whatever follows; the frames before it are delivered. *)
